@@ -125,12 +125,9 @@ Definition credit_update_for_event (cr : credit) (ev : event) : credit :=
   mkCredit (ev_buf_alloc ev) (ev_fwd_cnt ev) (cr_tx_cnt cr) (cr_buf_alloc cr) (cr_fwd_cnt cr)
            (match ev_type ev with EtCreditUpdate => false | _ => cr_pending cr end).
 
-(* plain `+=` on u32: None = overflow panic (debug profile) *)
-Definition plus32 (md : mode) (a b : N) : option N :=
-  match md with
-  | Debug => if two32 <=? a + b then None else Some (a + b)
-  | Release => Some (w32 (a + b))
-  end.
+(* the free-running counters are advanced with wrapping_add since the repair aa9c67a (C17, F7): both cargo
+   profiles wrap; the option and the mode argument are kept so that callers need not change *)
+Definition plus32 (md : mode) (a b : N) : option N := Some (w32 (a + b)).
 (* plain `-` on u32 *)
 Definition minus32 (md : mode) (a b : N) : option N :=
   match md with
@@ -145,12 +142,10 @@ Definition credit_done_forwarding (md : mode) (cr : credit) (n : N) : option cre
   | Some v => Some (mkCredit (cr_peer_buf_alloc cr) (cr_peer_fwd_cnt cr) (cr_tx_cnt cr) (cr_buf_alloc cr) v (cr_pending cr))
   end.
 
-(* peer_free: peer_buf_alloc - (tx_cnt - peer_fwd_cnt) *)
+(* peer_free: peer_buf_alloc.saturating_sub(tx_cnt.wrapping_sub(peer_fwd_cnt)) (repairs aa9c67a, 0cfd2c6) *)
 Definition credit_peer_free (md : mode) (cr : credit) : option N :=
-  match minus32 md (cr_tx_cnt cr) (cr_peer_fwd_cnt cr) with
-  | None => None
-  | Some d => minus32 md (cr_peer_buf_alloc cr) d
-  end.
+  let d := sub32 (cr_tx_cnt cr) (cr_peer_fwd_cnt cr) in
+  Some (if cr_peer_buf_alloc cr <? d then 0 else cr_peer_buf_alloc cr - d).
 
 Definition credit_add_tx (md : mode) (cr : credit) (len : N) : option credit :=
   match plus32 md (cr_tx_cnt cr) len with
